@@ -53,6 +53,8 @@ SCENARIOS = {
     # an automatically versioned function with two memento functions beneath it, called by two threads with different
     # arguments (nothing makes one wait for the other); every run in a process of its own, see FRESH_PROCESS
     "auto_two_deps": [[["autoboth", "k1"]], [["autoboth", "k2"]]],
+    # two different calls whose results are partitions (stored key by key, with an index of their own)
+    "partitions": [[["produce", "p1"]], [["produce", "p2"]]],
 }
 # scenarios whose runs each get a newly forked process: whatever the library builds lazily per process (tables filled at
 # the first nested call, versions refreshed at the first query) is built while the threads run, in every run
@@ -72,7 +74,8 @@ def cases(tier, seed):
     quick_sys = {(s, st, "4KiB") for s in list(SCENARIOS)[:6] for st in ("cold", "warm_store")} | {
         ("same_key", "warm_cache", "4KiB"), ("diff_keys", "cold", "16MiB"), ("batch", "warm_store", "16MiB"),
         ("same_key", "cold_mem", "16MiB"), ("nested", "cold_mem", "16MiB"), ("batch", "cold_mem", "16MiB"),
-        ("auto_version", "cold", "16MiB"), ("auto_two_deps", "cold", "16MiB")}
+        ("auto_version", "cold", "16MiB"), ("auto_two_deps", "cold", "16MiB"), ("partitions", "cold", "16MiB"),
+        ("partitions", "cold", "4KiB")}
     for ci, (s, st, b) in enumerate(cfgs):
         n = len(SCENARIOS[s])
         if tier == "thorough" or (s, st, b) in quick_sys:
@@ -104,8 +107,21 @@ def ensure_monitor(tier):
     return _MON[1]
 
 
+def _part(n):
+    def make():
+        from twosigma.memento.partition import InMemoryPartition
+
+        return InMemoryPartition({"id": n, "only-in-%d" % n: "part %d" % n, "rows": [n * 10, n * 10 + 1]})
+    return make
+
+
 def table():
-    return {"k1": "v1-" + "a" * 1500, "k2": "v2-" + "b" * 1500, "k3": "v3-" + "c" * 1500}
+    return {"k1": "v1-" + "a" * 1500, "k2": "v2-" + "b" * 1500, "k3": "v3-" + "c" * 1500, "p1": _part(1), "p2": _part(2)}
+
+
+def value_of(k):
+    v = table()[k]
+    return v() if callable(v) else v
 
 
 def do_op(op):
@@ -123,7 +139,7 @@ def do_op(op):
 
 
 def expected_op(op):
-    t = table()
+    t = {k: value_of(k) for k in table()}
     if op[0] == "batch":
         return [t[k] for k in op[1]]
     if op[0] == "nest":
@@ -280,7 +296,10 @@ def controlled_run(root, scenario, store, budget, strategy):
         mark2 = REC.mark()
         for fn, k in sorted(entries_of(scenario)):
             try:
-                getattr(ffuncs_mod(), fn)(k)
+                later = getattr(ffuncs_mod(), fn)(k)
+                # (what a later caller is served is the value of this very call)
+                if not domain.eq(later, expected_op([fn, k])):
+                    bad.append(("a caller receives a wrong value", "served after the threads finished: %s(%s) -> %s" % (fn, k, domain.describe(later, 150))))
             except Exception as e:
                 bad.append(("a call made after the threads finished fails", "%s(%s): %r" % (fn, k, e)))
         again = [(e[0], e[1][0]) for e in REC.since(mark2)]
